@@ -7,6 +7,27 @@ import os
 ROOT = os.path.dirname(os.path.dirname(os.path.abspath(__file__)))
 
 CHECKS = {
+    "C09": dict(
+        category="exploration",
+        technique="consistency checking between memory, archived files, member manifests and run manifest, with the standalone run as independent source, over Hypothesis-generated groups and all six run methods",
+        text="Groups of 1-4 generated csvpaths (identity- or index-named, optional unmatched-mode: keep, printouts, endings by exhaustion / stop() / fail()) over tables with cells containing quotes, commas and newlines, run by one of the six methods on a fresh CsvPaths. After the run: run manifest status complete; one directory per member; meta/vars/errors/manifest readable; vars.json == JSON of the member's variables == standalone; errors.json lines; printouts.txt sections; data.csv/unmatched.csv parse back to the standalone lines; member manifest valid/completed/file_fingerprints (sha256 recomputed from disk for exactly the files present); run manifest all_valid/all_completed/error_count; results_manager.is_valid.",
+        note="Standalone run is the source of 'what the run did'. Time/uuid/path-valued fields not compared; printouts not compared when errors were collected.",
+        design="5 C09",
+    ),
+    "C10": dict(
+        category="exploration",
+        technique="exhaustive enumeration of run histories under a harness-owned clock plus Hypothesis-drawn longer histories, history invariants after every run",
+        text="Histories over {2 groups} x {new, reused instance} x non-decreasing scripted instants (same second, +1 s, 12:59:59/13:00:00, 23:59:59/next-day 00:00:00): all canonical histories up to length 3 (quick) / 4 (thorough) with collect_paths, plus drawn histories of length 5-8 over all six methods. After every run: exactly one new directory, under the run's own group, equal to the results' run_dir; sha256 of every file of every earlier run unchanged; '$g.results.<prefix>:last|:first.<id>' resolves to the data of the most recent / earliest run (by scripted start second) whose directory has the prefix.",
+        note="Clock patched through module attributes csvpath.csvpaths.datetime and csvpath.managers.metadata.datetime; a directory not dated 2031 => harness error. Ties within a second accept any tied run.",
+        design="5 C10",
+    ),
+    "C15": dict(
+        category="exploration",
+        technique="metamorphic relations between runs of the same generated csvpath under generated outer comments and mode settings",
+        text="Generated csvpaths x outer comments (free text, 0-4 multi-word metadata fields, stand-alone-colon tail, before or after the path, mode settings inserted at a drawn position): metadata captured word for word and the run unchanged by a mode-free comment; a messy comment with modes behaves like the minimal comment with the same modes; return-mode no-matches is the exact ordered complement of the default over the scanned lines; run-mode no-run does nothing; print-mode no-default silences standard out only (attached printer unchanged); unmatched-mode keep partitions the records read.",
+        note="No reference model: relations between runs. 'Records read' is taken from the run's own last consumed line.",
+        design="5 C15",
+    ),
     "C11": dict(
         category="exploration",
         technique="exhaustive enumeration of canonical operation sequences (add/mutate/remove/new-instance) plus Hypothesis-drawn longer sequences against an abstract versioned-store model, invariants after every step",
